@@ -6,6 +6,7 @@ cd /verif
 miss=0
 for d in seeded/*/; do
   id=$(basename $d); prop=${id%-*}
+  n=$((n+1)); if [ -n "$SHARD" ] && [ $((n % ${SHARD#*/})) -ne ${SHARD%/*} ]; then continue; fi   # SHARD=i/n: every n-th entry, offset i
   git -C $R apply /verif/$d/patch.diff 2>/dev/null || git -C $R apply -C1 /verif/$d/patch.diff 2>/dev/null || { echo "APPLY-FAILED $id"; continue; }
   out=$(./bin/tmverif -repo $R -prop $prop -no-evidence 2>&1)
   git -C $R checkout -- .
